@@ -107,6 +107,12 @@ SPEC = [
          params=[("W", "Z"), ("num_taps", "Z")], ret="Z"),
     dict(group="02", name="num_subblocks", file="setigen/voltage/backend.py", cls="RawVoltageBackend", func="collect_data_block", what="nth:self.num_subblocks:1",
          params=[("T", "Z"), ("subblock_T", "Z")], ret="Z"),
+    dict(group="09", name="quant_factor", file="setigen/voltage/quantization.py", cls=None, func="quantize_real", what="nth:factor:2",     # else branch: data_std != 0
+         params=[("target_std", "Q"), ("data_std", "Q")], ret="Q"),
+    dict(group="09", name="quant_round", file="setigen/voltage/quantization.py", cls=None, func="quantize_real", what="nth:q_voltages:1",   # elementwise
+         params=[("factor", "Q"), ("x", "Q"), ("data_mean", "Q"), ("target_mean", "Q")], ret="Z"),
+    dict(group="09", name="quant_clip", file="setigen/voltage/quantization.py", cls=None, func="quantize_real", what="nth:q_voltages:2",
+         params=[("q_voltages", "Z"), ("num_bits", "Z")], ret="Z"),
     dict(group="11", name="chi2_df", file="setigen/frame.py", cls="Frame", func="__init__", what="assign:self.chi2_df",
          params=[("df", "Q"), ("dt", "Q")], ret="Z"),
     dict(group="11", name="stream_noise_var", file="setigen/voltage/data_stream.py", cls="DataStream", func="add_noise", what="assign:self.noise_std",
@@ -272,6 +278,8 @@ class Tr(object):
                 return "(%s / %s)%%Z" % (a[0], b[0]), "Z"
             if isinstance(op, ast.Mod) and a[1] == "Z" and b[1] == "Z":
                 return "(%s mod %s)%%Z" % (a[0], b[0]), "Z"
+            if isinstance(op, ast.Pow) and isinstance(n.left, ast.Constant) and n.left.value == 2 and b[1] == "Z":
+                return "(2 ^ %s)%%Z" % b[0], "Z"
             if isinstance(op, ast.Pow) and isinstance(n.right, ast.Constant) and n.right.value == 2:
                 if a[1] == "Z":
                     return "(%s * %s)%%Z" % (a[0], a[0]), "Z"
@@ -303,6 +311,11 @@ class Tr(object):
                 if ty == "Z":
                     return t, "Z"
                 return "(qtrunc %s)" % t, "Z"
+            if f in ("xp.clip", "np.clip") and len(n.args) == 3 and not n.keywords:
+                a, lo, hi = self.tr(n.args[0]), self.tr(n.args[1]), self.tr(n.args[2])
+                if a[1] == lo[1] == hi[1] == "Z":
+                    return "(Z.min (Z.max %s %s) %s)" % (a[0], lo[0], hi[0]), "Z"
+                raise Untranslatable("clip of non-integers")
             if f in ("max", "min") and len(n.args) == 2 and not n.keywords:
                 a, b = self.tr(n.args[0]), self.tr(n.args[1])
                 if a[1] == "Z" and b[1] == "Z":
